@@ -38,6 +38,19 @@ Fixpoint advance (n : nat) (s : st) : st :=
 Definition compute (target : nat) (s : st) : st :=
   let s := initialize s in advance (target - cur s) s.
 
+(* ---- the initial record written by compute() instead of initialize() (the variant that is refuted) ----
+   "nothing propagated yet: record the initial state" -- the guard holds on EVERY call that starts at the first step,
+   so a call that takes no step followed by another call records the initial state twice *)
+Definition initialize_lazy (s : st) : st :=
+  match step s with
+  | Some _ => s
+  | None => {| step := Some 0; net := net_init; dyn := [] |}
+  end.
+Definition compute_lazy (target : nat) (s : st) : st :=
+  let s := initialize_lazy s in
+  let s' := if Nat.eqb (cur s) 0 then {| step := step s; net := net s; dyn := dyn s ++ [(0, net s)] |} else s in
+  advance (target - cur s) s'.
+
 (* ---- a transient failure of a user callable ----------------------------------------
    [fails k] : evaluating the callables for the step that leads to k raises (once).
    [atomic = true]  : the code as repaired (nothing has changed when the exception leaves)
